@@ -16,7 +16,7 @@ PINS = "pins/C17.v"
 HEADER = "From QV Require Import model.Base model.ClassGraph."
 TRUSTED = ["the reachability oracle in vlib/c17.py (search leg only)", "harness/src/typemap.rs: builds TypeMap via ModuleData::extend/push_alias, queries through the public Class API"]
 
-NP, NM, NE, NV = 4, 3, 3, 5
+NP, NM, NE, NV = 4, 3, 3, 10       # variants v0..v9: enums of 0..10 variants (sizes around 8 included: a table / a set may switch representation there)
 
 
 def num(name):
@@ -65,7 +65,7 @@ def gen_graph(rng, ctx):
                 meths[kind].append((nm, rng.random() < 0.85, ar))
         enums = []
         for _ in range(rng.choice([0, 0, 1, 2, 3])):
-            enums.append((rng.randrange(NE), rng.random() < 0.25, sorted(set(rng.randrange(NV) for _ in range(rng.randrange(4))))))
+            enums.append((rng.randrange(NE), rng.random() < 0.35, sorted(set(rng.randrange(NV) for _ in range(rng.choice([0, 1, 2, 3, 3, 9, 12, 16, 30]))))))
         classes.append({"supers": sup, "props": props, "meths": meths, "enums": enums})
     aliases = []
     for j in range(2):
@@ -130,6 +130,15 @@ def queries(g, rng):
         for v in range(NV):
             qs.append(["variant", a, "v%d" % v])
     return qs
+
+
+def enum_queries(g, rng):
+    """Class.Enum.Variant: a variant looked up inside an enum type (decided on the implementation's answers by the oracle alone)"""
+    n = len(g["classes"])
+    names = ["K%d" % i for i in range(n)]
+    if n > 12:
+        names = rng.sample(names, 4)
+    return [["evariant", a, "E%d.v%d" % (e, v)] for a in names for e in range(NE) for v in range(NV)]
 
 
 def coq_case(g, qs):
@@ -283,9 +292,26 @@ def judge(g, q, r, nm, reach, has_dangling):
                 ok = e == k
             if not ok:
                 bad = "%s(%s,%s)=%r; declaring ancestors-or-self %s" % (q[0], q[1], q[2], r, sorted(decl))
+    elif q[0] == "evariant":
+        en, vn = q[2].split(".")
+        k, v = int(en[1:]), int(vn[1:])
+        decl = [d for d in reach[c] if any(e[0] == k for e in cls[d]["enums"])]
+        if r == "noenum":
+            if decl:
+                bad = "get_type(%s,%s) finds no enum but %s declare(s) it" % (q[1], en, sorted(decl))
+        else:
+            # the enum the type lookup gives (own declaration first); the variant answers iff that enum is scoped and lists it.  Which declaring ancestor is
+            # taken is judged by the `type` query: here every candidate enum of that name is asked
+            cands = [e for d in decl for e in cls[d]["enums"] if e[0] == k]
+            yes = [e for e in cands if e[1] and v in e[2]]
+            if r is None or r == "err":
+                if cands and len(yes) == len(cands):
+                    bad = "%s.%s.%s: every enum of that name is scoped and lists the variant, but the lookup says %r" % (q[1], en, vn, r)
+            elif not yes:
+                bad = "%s.%s.%s resolves to %r although no enum of that name is scoped and lists the variant" % (q[1], en, vn, r)
     if bad is None:
         return None
-    if dang and (r is False or r is None or r == "err"):
+    if dang and (r is False or r is None or r == "err" or r == "noenum"):
         return "known"   # F13 class: a class reachable from the start lists an unresolvable super name; answer 'not found'
     return bad
 
@@ -314,7 +340,7 @@ def run(ctx):
     cases = []
     for g in graphs:
         qs = queries(g, rng)
-        cases.append({"classes": to_meta(g), "others": g["others"], "aliases": [list(a) for a in g["aliases"]], "queries": qs})
+        cases.append({"classes": to_meta(g), "others": g["others"], "aliases": [list(a) for a in g["aliases"]], "queries": qs + enum_queries(g, rng), "nmodel": len(qs)})
     impl = C.harness_run(vh, "typemap", cases, timeout=20 if ctx.tier == "quick" else 60)
     terms = []
     idx = []
@@ -339,11 +365,12 @@ def run(ctx):
                 known_n += 1
             elif v is not None and len(ctx.violations) < 5:
                 ctx.violation(v, {"case": {"graph": g, "query": q}, "impl_output": r, "theorem_or_correspondence": "S: typemap answers vs reachability oracle"})
-        exp = [expected_term(q, r) for q, r in zip(case["queries"], res)]
+        nmod = case.get("nmodel", len(case["queries"]))
+        exp = [expected_term(q, r) for q, r in zip(case["queries"][:nmod], res[:nmod])]
         if any(e is None for e in exp):
             ctx.violation("unexpected answer shape from the implementation", {"case": {"graph": g}, "impl_output": res})
             continue
-        terms.append((coq_case(g, case["queries"]), C.coq_list(exp)))
+        terms.append((coq_case(g, case["queries"][:nmod]), C.coq_list(exp)))
         idx.append(gi)
     ctx.coverage["queries"] = nq
     ctx.coverage["answers_in_known_class"] = known_n
